@@ -590,3 +590,53 @@ def c_default_prim(eng, st, fr, f, args, site):
     if ii:
         return [(st, int_const(0, ii[0], ii[1]))]
     return None
+
+
+# ------------------------------------------------------------------ futures: awaiting a local async fn
+@contract(r"^<F as (std|core)::future::IntoFuture>::into_future$|^(std|core)::future::IntoFuture::into_future$|^(std|core)::future::into_future::IntoFuture::into_future$")
+def c_into_future(eng, st, fr, f, args, site):
+    """`IntoFuture` for a future is the identity."""
+    return [(st, args[0])]
+
+
+@contract(r"^(std|core)::pin::Pin::<Ptr>::new_unchecked$|^(std|core)::pin::Pin::<Ptr>::new$")
+def c_pin_new(eng, st, fr, f, args, site):
+    """Pin<&mut T> is represented by the reference itself."""
+    if isinstance(args[0], (Ref, Fn)):
+        return [(st, args[0])]
+    return None
+
+
+@contract(r"^(std|core)::future::Future::poll$|^(std|core)::future::future::Future::poll$|^<.* as (std|core)::future::Future>::poll$|^futures(_core|_util)?::(future::)?Future::poll$")
+def c_poll_local_coroutine(eng, st, fr, f, args, site):
+    """Polling the coroutine of a local `async fn`: its (pre-transform) body is analysed in context; the result is
+    Ready(return value) or Pending (no visible effect: partial progress is invisible to the caller)."""
+    fut = args[0]
+    if isinstance(fut, Ref):
+        fut = deref(eng, st, fut)
+    fut = force(eng, st, fut)
+    if not isinstance(fut, Fn) or len(fut.items) != 1:
+        return None
+    it = next(iter(fut.items))
+    if it[0] != "closure":
+        return None
+    _, dpath, envloc, subitems = it
+    body = eng.F.body(dpath)
+    if body is None or body.get("kind") not in ("coroutine", "closure") or body["arg_count"] != 2:
+        return None
+    rt = ret_ty(eng, site)
+    if rt is None:
+        return None
+    poll = eng.M.force(st, Top(rt, "poll#%d" % eng._hv()))
+    if not isinstance(poll, Enum) or len(poll.variants) != 2:
+        return None
+    names = {eng.T.variant_name(poll.ty, vi): vi for vi, _ in poll.variants}
+    if "Ready" not in names or "Pending" not in names:
+        return None
+    ctx = args[1] if len(args) > 1 else Top(body["locals"][2]["ty"], "cx")
+    res = eng.inline(st.fork(), fr, body, dict(subitems), [ctx], site, closure_env=envloc)
+    if res is None:
+        return None
+    outs = [(ns, Enum(poll.ty, ((names["Ready"], (rv,)),), "poll")) for ns, rv in res]
+    outs.append((st.fork(), Enum(poll.ty, ((names["Pending"], ()),), "poll")))
+    return outs
